@@ -248,6 +248,12 @@ def c11(work, tier, seed, replay):
     rep.add_model("MC_Grammar(len<=%d)" % n, r)
     rep.cov["states"] = max(rep.cov["states"], 1)
     rep.cov["transitions"] = len(toks)
+    # proofs of every length up to the protocol's 63 lines (and a few beyond, which may be refused but not misread)
+    for k_ in list(range(5, 67)) + [70, 100, 127]:
+        toks.append(json.dumps({"toks": ["size"] + ["b64"] * k_ + ["blank", "cp"] + (["cp"] if k_ % 2 else [])}))
+        if k_ in (62, 63, 64):
+            toks.append(json.dumps({"toks": ["size"] + ["b64"] * k_}))                       # no separator
+            toks.append(json.dumps({"toks": ["size"] + ["b64"] * (k_ - 1) + ["notb64", "blank", "cp"]}))
     vec = work.path("toks.jsonl")
     open(vec, "w").write("\n".join(toks) + "\n")
     # the repository's own writer of the body format
